@@ -36,10 +36,47 @@ def mk_only(E):
     return c
 
 
+NO_TB = z3.Function('traceback_is_None', ValS, z3.BoolSort())
+
+
 def engine(E):
     stubs.install_all(E)
     aio.install(E)
     E.props_default = frozenset({'C20'})
+    Bn = E.builtins
+    ns = Bn[('import', 'asyncio')]
+    for nm in ('create_task', 'ensure_future'):
+        ns.attrs[nm] = VStub('asyncio.' + nm, (lambda n: lambda E_, a, k: _unsupp('asyncio.%s of one awaitable' % n))(nm))
+
+    def _map(E_, a, k):
+        """map(f, aws): lazy; only create_task / ensure_future over the given awaitables is understood"""
+        if len(a) == 2 and isinstance(a[0], VStub) and a[0].name in ('asyncio.create_task', 'asyncio.ensure_future') \
+                and isinstance(a[1], VSeq):
+            return Obj('MappedAws', dict(seq=a[1].t, via=a[0].name))
+        raise Unsupported('map(%r, ...)' % (a[0],))
+    Bn['map'] = VStub('map', _map)
+
+    def _unpack_ext(E_, v, node):
+        if isinstance(v, Obj) and v.cls == 'MappedAws':
+            if v.fields['via'] == 'asyncio.create_task':
+                # create_task() accepts coroutines only: a Task, a Future or an object with __await__ among the
+                # awaitables makes it raise TypeError while the arguments are being expanded
+                if E.choose([('all_coroutines', None), ('some_other_awaitable', None)], 'create_task') != 'all_coroutines':
+                    E.throw('TypeError', origin='create_task')
+            return [aio.VStar(v.fields['seq'])]
+        return None
+    Bn['__unpack_ext__'] = _unpack_ext
+
+    def _attr(E_, o, name, node):
+        if isinstance(o, VVal) and o.t.sort() == ValS and name == '__traceback__':
+            # an exception object that was never raised (future.set_exception(Err())) has no traceback
+            return VOpt(NO_TB(o.t), E.fresh_val('traceback'))
+        return None
+    Bn['__getattr__'] = _attr
+
+
+def _unsupp(m):
+    raise Unsupported(m)
 
 
 def seq_loop(E, st, fr, R, inv_fn, label):
@@ -107,7 +144,13 @@ def t_gather_excs(E):
         E.w['gen_out'] = z3.Empty(VS)
         E.cover(f.qualname + '/requires')
         E.canary(f.qualname + '/canary@entry')
-        E.run_body(f, [VSeq(aws, VVal), only], {})
+        try:
+            E.run_body(f, [VSeq(aws, VVal), only], {})
+        except PyExc as pe:
+            E.oblige(f.qualname + '/signals.raises_nothing_of_its_own', z3.BoolVal(False),
+                     detail='gather_excs itself raised (origin: %s): every awaitable is awaited, failures are '
+                            'YIELDED' % pe.exc.info.get('origin'))
+            return
         E.cover(f.qualname + '/exit[return]')
         g = [e for e in E.effects if e[0] == 'asyncio.gather']
         E.oblige(f.qualname + '/call.gathers_exactly_once', z3.BoolVal(len(g) == 1))
